@@ -63,6 +63,31 @@ INNER = ["DictNode", "DefaultDictNode", "ListNode", "SetNode", "TupleNode", "Met
 RARE = ["CachedNode", "QuantileForestNode"]
 
 INERT_KEYS = ["extra", "children", "obj", "attrs"]      # top-level keys no loader reads
+# Characters for dict keys / attribute names / type names that the printer of visualize has to show on one line (C13): line
+# breaks of every kind str.splitlines knows, other controls, invisible spaces and format characters, lone surrogates, private
+# use, noncharacters, astral unprintables -- next to ordinary ASCII, a backslash and printable non-ASCII.  ALL of them lie in
+# the charset on which the model's isprintable is exact (coq/io/IoShow.v: exact_charset; harness/props/c13.py checks it).
+NASTY_CHARS = ["\n", "\n", "\r", "\t", "\x0b", "\x0c", "\x1c", "\x1d", "\x1e", "\x85", "\u2028", "\u2029",
+               "\x00", "\x1b", "\x7f", "\xa0", "\xad", "\u1680", "\u2003", "\u200b", "\u200e", "\u202e", "\u2060", "\u3000", "\ufeff",
+               "\ud800", "\ud800", "\udbff", "\udc00", "\udfff", "\ue000", "\ufffe", "\uffff", "\U000e0001", "\U000e007f", "\U000f0000", "\U0010ffff"]
+PLAIN_CHARS = ["a", "b", "Z", "_", "0", " ", ":", ".", "\\", "|", "[", "\u00e9", "\u00ff", "\u0131", "\u03bb", "\u2192", "\u2502", "\u2514", "\u65e5", "\ufffd", "\U0001f600"]
+NASTY_FIXED = ["a\nroot: builtins.dict", "\ud800", "x\r\ny", "\u2028", "tab\there", "\x1b[31mred", "no\xa0break", "\\n", "caf\u00e9 \u65e5\u672c"]
+
+
+def nasty_text(r):
+    """a short text mixing ordinary and unprintable characters; a high surrogate is never followed by a low one (JSON would
+    join the two into one astral character on the way to the implementation)"""
+    if r.random() < 0.3:
+        return r.choice(NASTY_FIXED)
+    out = []
+    for _ in range(r.randint(1, 5)):
+        c = r.choice(NASTY_CHARS if r.random() < 0.5 else PLAIN_CHARS)
+        if out and "\ud800" <= out[-1] <= "\udbff" and "\udc00" <= c <= "\udfff":
+            out.append("-")
+        out.append(c)
+    return "".join(out)
+
+
 SCALARS = [None, 0, 1, 2, -1, 1.5, 2.0, 1.0, True, False, "", "x", "numpy", "json", "scipy", "root", "key_types"]
 CONTAINERS = [[], {}, [1], ["a", "b"], {"a": 1}, {"__id__": 1}, [[]]]
 
@@ -80,6 +105,8 @@ class Gen:
         self.members = {"m1.bin", "m2.npy", "m3.npz"}
         self.wellformed = True
         self.canary_modules = None
+        self.nasty = 0.0          # probability of unprintable characters in a key / attribute name / type name (C13 only)
+        self.nasty_names = False  # a type name with such characters was emitted
 
     # ------------------------------------------------------------ names / ids
     def names(self, loader):
@@ -90,6 +117,11 @@ class Gen:
                 self.canary_modules.append(f"verif_cm_{k}")
                 return (f"verif_cm_{k}", self.r.choice(["C", "f", "missing"]))
             return self.r.choice(TYPICAL[loader])
+        if self.nasty and self.r.random() < self.nasty * 0.25:
+            # a hand-made archive may put anything into a name slot: the row shows module.class
+            self.nasty_names = True
+            m, c = self.r.choice(TYPICAL[loader])
+            return self.r.choice([(nasty_text(self.r), c), (m, nasty_text(self.r)), (m + nasty_text(self.r), c), (m, c + nasty_text(self.r))])
         r = self.r.random()
         if r < 0.035:
             # names that are not strings at all (JSON null / number / list): no position may accept them silently
@@ -232,6 +264,11 @@ class Gen:
         keys = self.r.sample(["a", "b", "c", "x/y", "content", "é"], self.r.randint(0, 3))
         if self.r.random() < 0.04:
             keys.append("key_types")
+        if self.nasty and self.r.random() < self.nasty:
+            for _ in range(self.r.randint(1, 2)):
+                k = nasty_text(self.r)
+                if k not in keys:
+                    keys.insert(self.r.randint(0, len(keys)), k)
         st = self.hdr("DictNode")
         st["content"] = {k: self.node(d) for k in keys}
         if self.r.random() < 0.85:
@@ -268,7 +305,13 @@ class Gen:
         st = self.hdr("ObjectNode")
         r = self.r.random()
         if r < 0.7:
-            st["content"] = self.dict_of([(k, self.node(d)) for k in self.r.sample(["coef_", "n", "p"] + (["key_types"] if self.r.random() < 0.05 else []), self.r.randint(0, 2))])
+            attrs = self.r.sample(["coef_", "n", "p"] + (["key_types"] if self.r.random() < 0.05 else []), self.r.randint(0, 2))
+            if self.nasty and self.r.random() < self.nasty:
+                # setattr(obj, name, v) accepts any string: attribute names are dict keys of the object's state
+                k = nasty_text(self.r)
+                if k not in attrs:
+                    attrs.append(k)
+            st["content"] = self.dict_of([(k, self.node(d)) for k in attrs])
         elif r < 0.8:
             st["content"] = None
         return st
@@ -398,9 +441,12 @@ def depth_of(j):
     return 0
 
 
-def gen_case(rnd, protocols=(2, 2, 2, 1, 0, 3), malformed_p=0.35, max_depth=4, canary_modules=None):
+def gen_case(rnd, protocols=(2, 2, 2, 1, 0, 3), malformed_p=0.35, max_depth=4, canary_modules=None, nasty=0.0):
+    """nasty > 0 (C13): dict keys, attribute names and type names may hold unprintable characters (NASTY_CHARS); with the
+    default 0.0 not a single extra random draw is made, so the streams of the other properties are what they were"""
     g = Gen(rnd, protocol=rnd.choice(protocols))
     g.canary_modules = canary_modules
+    g.nasty = nasty
     sch = g.schema(rnd.randint(0, max_depth))
     malformed = rnd.random() < malformed_p
     notes = []
@@ -420,5 +466,9 @@ def gen_case(rnd, protocols=(2, 2, 2, 1, 0, 3), malformed_p=0.35, max_depth=4, c
             sch["protocol"] = rnd.choice([0, 1, 2, 3, 2.0, True, "2", None, 99])
     tspec = rnd.choice(["none", "none", "empty", "reported", "reported", "subset", "superset", "misleading"])
     show = rnd.choice(["all", "all", "untrusted", "trusted"])
+    if g.nasty_names and tspec not in ("none", "empty"):
+        # a type name that is not an importable name is never vouched for: what importlib does with such a module name
+        # (control characters, NUL, surrogates) is not part of any model here
+        tspec = "none"
     return {"schema": sch, "members": sorted(g.members), "tspec": tspec, "tseed": rnd.randrange(1 << 30), "show": show,
             "wellformed": g.wellformed and not malformed, "malformed": malformed, "notes": notes}
